@@ -84,7 +84,9 @@ NUMS = [0.0, -0.0, 1.0, -1.0, 2.0, 0.5, -0.5, 3.0, 10.0, 1e300, NAN, INF, -INF,
         # non-zero magnitudes; a sum that is not what it looks like; whole numbers whose shortest decimal rendering is
         # not their exact expansion
         2.0 ** 31, 2.0 ** 32, 2.0 ** 53, 2.0 ** 53 + 2, 2.0 ** 60, 2.0 ** 63, 2.0 ** 63 + 2048, -2.0 ** 63, 2.0 ** 64, 1e19, 1e21,
-        1.2345678901234568e17, 255.0, 256.0, 65536.0, 5e-324, 1e-300, 2.2e-17, -1e-20, 0.30000000000000004]
+        1.2345678901234568e17, 255.0, 256.0, 65536.0, 5e-324, 1e-300, 2.2e-17, -1e-20, 0.30000000000000004,
+        # one unit in the last place above / below an integer (what a tolerant integer test might accept)
+        1.0000000000000002, 0.9999999999999999, 16.000000000000004, 110.00000000000001, 64.99999999999999, 2.0000000000000004]
 STRS = ['', '0', '1', ' 1', '1e3', 'abc', 'true', '-0', 'inf', 'nan', '0.5', 'éΩ',
         # numeric text with something around it that a tolerant conversion might strip or accept
         '5\r', '\t5', '5 ', '+5', '5.', '.5', '1_0', '1,0', '0x10', 'Infinity', 'NaN', '-inf', '５', '1e', '--1', '1e400', '5\x00']
